@@ -1213,7 +1213,7 @@ func (e *Engine) evalSpecHelper(st *State, call *ast.CallExpr, name string) Valu
 		x := e.bytesOperand(st, call.Args[0])
 		y := e.bytesOperand(st, call.Args[1])
 		return BoolV{e.lexLess(x, y)}
-	case "gget", "gsame", "gsameExcept":
+	case "gget", "ggets", "gsame", "gsameExcept":
 		cv := e.constOf(call.Args[0])
 		if cv == nil {
 			e.fail(call, "%s needs a constant name", name)
@@ -1230,20 +1230,44 @@ func (e *Engine) evalSpecHelper(st *State, call *ast.CallExpr, name string) Valu
 		switch name {
 		case "gget":
 			return IntV{Sel(Sel(st.ghost["MapV"], ref), keyOf(call.Args[1]))}
+		case "ggets":
+			r := Sel(Sel(st.ghost["MapV"], ref), keyOf(call.Args[1]))
+			if e.quant == 0 {
+				r = e.nameAlways("gs", r)
+				e.strIDs = append(e.strIDs, r)
+				e.assume(st, Ge(e.slen(r), I(0)), "ghost string")
+			}
+			return StrV{r}
 		default:
 			if e.oldState == nil {
 				return BoolV{tTrue}
 			}
 			e.ensureMapHeaps(e.oldState)
-			e.nsym++
-			qv := fmt.Sprintf("gq!%d", e.nsym)
-			q := T{qv, SInt}
-			var ne []T
+			// quantifier-free frame: new == old with the named keys overwritten by their new values
+			cur := Sel(st.ghost["MapV"], ref)
+			upd := Sel(e.oldState.ghost["MapV"], ref)
 			for _, a := range call.Args[1:] {
-				ne = append(ne, Ne(q, keyOf(a)))
+				k := keyOf(a)
+				upd = Sto(upd, k, Sel(cur, k))
 			}
-			return BoolV{Forall([]string{qv}, Implies(And(ne...), Eq(Sel(Sel(st.ghost["MapV"], ref), q), Sel(Sel(e.oldState.ghost["MapV"], ref), q))))}
+			return BoolV{Eq(cur, upd)}
 		}
+	case "sameMapExcept":
+		if e.oldState == nil {
+			return BoolV{tTrue}
+		}
+		e.ensureMapHeaps(st)
+		e.ensureMapHeaps(e.oldState)
+		m := e.eval(st, call.Args[0])
+		ref := e.asInt(m, call.Args[0])
+		curP, curV := Sel(st.ghost["MapP"], ref), Sel(st.ghost["MapV"], ref)
+		updP, updV := Sel(e.oldState.ghost["MapP"], ref), Sel(e.oldState.ghost["MapV"], ref)
+		for _, a := range call.Args[1:] {
+			k := e.mapKey(st, e.eval(st, a), a)
+			updP = Sto(updP, k, Sel(curP, k))
+			updV = Sto(updV, k, Sel(curV, k))
+		}
+		return BoolV{And(Eq(curP, updP), Eq(curV, updV))}
 	case "sameBlock":
 		a, aok := e.eval(st, call.Args[0]).(SliceV)
 		b, bok := e.eval(st, call.Args[1]).(SliceV)
